@@ -570,6 +570,15 @@ func (a *Agent) handleUDPOpenAck(peerID identity.AgentID, frame *protocol.Frame)
 	dest := lookup.Dest
 	a.udpIngressMu.RUnlock()
 
+	// An open is answered once. A duplicated or replayed acknowledgement must not
+	// re-key an established association: the private key is already zeroed, so it
+	// would derive a key from a known scalar and restart the nonce counter.
+	select {
+	case <-dest.PendingOpen:
+		return
+	default:
+	}
+
 	ack, err := protocol.DecodeUDPOpenAck(frame.Payload)
 	if err != nil {
 		return
